@@ -726,7 +726,7 @@ pub fn run(run: &Run) {
     let get = |n: &str| &*find_sub(&subs, n).unwrap().f;
     run_regressions(run, &subs);
     run.fixed("panic", &[vec![0]], get("panic"));
-    let n = run.tier.pick(60_000, 1_000_000);
+    let n = run.tier.pick(60_000, 2_000_000);
     run.random("diff", n, 300, get("diff"));
     run.random("errors", n, 60, get("errors"));
     run.random("threads", n / 20, 40, get("threads"));
